@@ -266,7 +266,7 @@ def lean_req(case, real):
     if real[0] == "ok":
         d, mk = real[1]["loc"]
         d, mk = d.reshape(nrows, c), mk.reshape(nrows, c)
-        hloc = [None if mk[r].all() else rat(_entropy(d[r])) for r in range(nrows)]
+        hloc = [None if mk[r].all() or not math.isfinite(_entropy(d[r])) else rat(_entropy(d[r])) for r in range(nrows)]
     return {"op": "cat_entropy", "ws": ws, "n": n, "c": c, "rows": rows, "hloc": hloc, "hrows": hrows}
 
 
@@ -402,7 +402,7 @@ def _same(a, b, tie=None):
             m1 = m2 = np.zeros(d1.shape, dtype=bool) if m1.shape != d1.shape or m2.shape != d2.shape else m1 | m2
         if d1.shape != d2.shape or (m1 != m2).any():
             return f"{k}: masks/shapes differ"
-        ok = m1 | (np.abs(d1 - d2) <= TOL * (1 + np.abs(d2)))
+        ok = m1 | (np.abs(d1 - d2) <= TOL * (1 + np.abs(d2))) | (np.isnan(d1) & np.isnan(d2))  # NaN: `non-finite-output`
         for j in np.nonzero(~ok.reshape(-1))[0]:
             if k == "loc" and tie is not None and tie(int(j), d1.reshape(-1)[j], d2.reshape(-1)[j]):
                 continue
@@ -483,6 +483,12 @@ def oracle(case, only=None, items_out=None):
 
     def emit(clause, item, detail):
         """a clause decided by a verified checker: Python verdict here, Lean verdict through `items_out`"""
+        flat = [x for v in item.values() for x in (v if isinstance(v, list) else [v]) if isinstance(x, (float, np.floating))]
+        if not all(math.isfinite(x) for x in flat):
+            # a NaN / inf in a real output: the clause fails outright (nothing to send to the exact checker)
+            if not any(c == clause for c, _ in fails):
+                fails.append((clause, detail + " [non-finite value in the implementation's output]"))
+            return
         ok = _py_check(item)
         if items_out is not None:
             items_out.append((clause, detail, item, ok))
@@ -495,6 +501,14 @@ def oracle(case, only=None, items_out=None):
     out = base[1]
     w = case["weights"]
     tie = _mode_tie(case)
+    # -- every unmasked cell of every returned statistic is a finite number
+    if want("non-finite-output"):
+        for k_, (dv, mv) in out.items():
+            bad = ~np.isfinite(dv) & ~np.broadcast_to(mv, dv.shape)
+            if bad.any():
+                j = int(np.argmax(bad.reshape(-1)))
+                fails.append(("non-finite-output", f"{k_}[{j}] = {dv.reshape(-1)[j]!r}"))
+                break
     # -- the result does not depend on what the aggregator object was used for before
     if case.get("history") and want("reuse-independent"):
         r = _same(base, call(dict(case, history=None)), tie)
